@@ -290,8 +290,46 @@ impl Prop for C03 {
                 stats.hit("delete_where_shorthand");
                 Upd::DeleteWhere(gen_qts(rng, &u, nvars, true, malformed))
             } else {
-                let w = gen_group(rng, &u, nvars, 1, true, &mut fresh);
-                let (d, i) = match rng.below(3) {
+                let mut w = gen_group(rng, &u, nvars, 1, true, &mut fresh);
+                let shape = if !u.seeds.is_empty() && rng.chance(1, 4) { 3 } else { rng.below(3) };
+                let (d, i) = match shape {
+                    3 => {
+                        // "move"/"rename": the WHERE matches a whole family of stored quads, the DELETE template removes
+                        // exactly what was matched and the INSERT template re-attaches the matched terms elsewhere
+                        // (so the last quad mentioning a term in a position may disappear in the same operation)
+                        stats.hit("move_shape");
+                        let (ss, sp, _) = rng.pick(&u.seeds).clone();
+                        let s = if rng.chance(1, 2) { Term::Var(0) } else { Term::Const(ss) };
+                        let pr = if rng.chance(1, 2) { Term::Var(1) } else { Term::Const(sp) };
+                        let bgp = Pat::Bgp(vec![(s.clone(), pr.clone(), Term::Var(2))]);
+                        let g = match rng.below(4) {
+                            0 => Some(TT::Const(rng.pick(&u.graphs).clone())),
+                            _ => None,
+                        };
+                        w = match &g {
+                            Some(TT::Const(gn)) => Pat::Group(vec![Pat::Graph(GTerm::Named(gn.clone()), Box::new(Pat::Group(vec![bgp])))]),
+                            _ => Pat::Group(vec![bgp]),
+                        };
+                        let tt = |t: &Term| match t {
+                            Term::Var(v) => TT::Var(*v),
+                            Term::Const(c) => TT::Const(c.clone()),
+                        };
+                        let d = vec![QT { s: tt(&s), p: tt(&pr), o: TT::Var(2), g: g.clone() }];
+                        let mut i = Vec::new();
+                        for _ in 0..rng.range(1, 2) {
+                            // the matched terms change position or keep it under a new predicate/graph
+                            let order = rng.below(4);
+                            let np = TT::Const(rng.pick(&u.preds).clone());
+                            let q = match order {
+                                0 => QT { s: tt(&s), p: np, o: TT::Var(2), g: None },
+                                1 => QT { s: TT::Var(2), p: tt(&pr), o: tt(&s), g: g.clone() },
+                                2 => QT { s: tt(&s), p: tt(&pr), o: TT::Const(rng.pick(&u.lits).clone()), g: Some(TT::Const(rng.pick(&u.graphs).clone())) },
+                                _ => QT { s: tt(&s), p: tt(&pr), o: TT::Var(2), g: Some(tt(&s)) },
+                            };
+                            i.push(q);
+                        }
+                        (Some(d), Some(i))
+                    }
                     0 => {
                         stats.hit("insert_where");
                         (None, Some(gen_qts(rng, &u, nvars, true, true)))
